@@ -2,7 +2,7 @@
    Only statements: each theorem is closed by [exact lemma], pinned by [Check], followed by
    [Print Assumptions]. *)
 From Coq Require Import List NArith Permutation.
-From EZK Require Import Gen.Tables Lib.Bytes Model.C10 Proofs.C10.
+From EZK Require Import Model.Forms8 Proofs.Forms8 Gen.Tables Lib.Bytes Model.C10 Proofs.C10.
 Import ListNotations.
 Open Scope N_scope.
 
@@ -119,3 +119,18 @@ Theorem C10_parked_not_displaced : forall es cid ft t r k e n x,
   next (e_st e) = Some n -> n < r_cseq r -> bl_lookup (r_cseq r) (backlog (e_st e)) = Some x ->
   layer_step es (Recv cid ft (Some t) r) = (es, NotIntercepted).
 Proof. intros. eapply parked_not_displaced; eauto. Qed.
+
+(* sequencing does not depend on who is registered: a request with the expected number advances the expected number also in a window
+   in which the dialog has no usage; and after a release the expected number is the one after the LAST released request *)
+Theorem C10_sequencing_guards : sequenced_without_usages = true /\ next_cseq_from_last_released = true.
+Proof. split; reflexivity. Qed.
+
+Theorem C10_sequenced_without_usages : sequenced_without_usages = true -> forall nus, sequences nus = true.
+Proof. exact sequences_here. Qed.
+
+Theorem C10_unsequenced_window_refuted : sequences_form false 0 = false.
+Proof. exact not_sequenced_when_empty. Qed.
+
+Theorem C10_next_after_release : next_cseq_from_last_released = true ->
+  forall arriving k, next_after_release arriving k = arriving + N.of_nat k + 1.
+Proof. exact next_here. Qed.
